@@ -373,3 +373,66 @@ def reallocarr_store(ctx, R, prog):
         w = cfg.guarded(cfg.pt(stores[0]), lambda e, pol: isinstance(e, int) and rl.fact_nonnull(g, e, pol, rl.is_var(g, news[0])))
         ok = w is None
     ctx.check(R, ok, g.where(), "*op = newp only when the reallocation succeeded", key=R + ":reallocarr:store")
+
+
+def segment_commit_after_success(ctx, R, prog):
+    """C07.R3 / C13.R7: mi_segment_commit records the range in commit_mask only on the success edge of the OS commit and reports a
+    refusal as false — a mask bit set for memory the OS refused is a span that is later used (page initialisation writes into it)
+    without any commit"""
+    f = prog.fn("mi_segment_commit")
+    cfg = f.cfg
+    ok_commit = lambda e, pol: isinstance(e, int) and pol and rl.is_call(f, f.strip(e), ("_mi_os_commit", "_mi_os_commit_ex"))
+    sets = [c for c in f.calls("mi_commit_mask_set") if f.mentions_field(rl.arg(f, c, 0), "commit_mask")]
+    ctx.check(R, len(sets) >= 1, f.where(), "mi_segment_commit records the new commit mask", key=R + ":commit:set")
+    for c in sets:
+        w = cfg.guarded(cfg.pt(c), ok_commit)
+        ctx.check(R, w is None, f.where(c), "commit_mask is extended only on the success edge of _mi_os_commit", key=R + ":commit:guard", witness=w)
+    hit = [q for p, q, e, pol in rl.edges_with_fact(f, lambda e, pol: isinstance(e, int) and (not pol) and rl.is_call(f, f.strip(e), ("_mi_os_commit", "_mi_os_commit_ex")))]
+    okf = bool(hit)
+    for q in hit:
+        for r in [cfg.elem_at(p) for p in cfg.reach([q]) if cfg.elem_at(p) is not None and f.nodes[cfg.elem_at(p)]["k"] == "ReturnStmt"]:
+            if f.cv(f.nodes[r].get("val", -1)) != 0:
+                okf = False
+    ctx.check(R, okf, f.where(), "a refused commit makes mi_segment_commit return false", key=R + ":commit:false")
+
+
+def commit_mask_exact(ctx, R, prog):
+    """C01.R12 / C13.R7: the field value mi_commit_mask_create stores for `n` slices starting at bit `ofs` of a field is exactly the
+    n bits ofs..ofs+n-1, for every ofs in [0, W) and every remaining count (n = min(count, W - ofs), including the whole field
+    n = W, where `1 << n` is not defined) — decided by evaluating the stored expression with lib/absint.py on every point of
+    that finite domain. A mask that misses bits of a range leaves a pending purge of live slices un-cancelled (or a commit
+    unrecorded): the purge later decommits the middle of a live block."""
+    from absint import AV, Interp, Split, Unsupported, AssertionMayFail
+    f = prog.fn("mi_commit_mask_create")
+    W = prog.const("MI_COMMIT_MASK_FIELD_BITS")
+    stores = [(a, lhs, rhs) for a, lhs, rhs, op in f.stores() if op == "=" and f.nodes[f.strip(lhs)]["k"] == "ArraySubscriptExpr" and rl.field_is(f, f.nodes[f.strip(lhs)]["c"][0], "mask")
+              and f.cv(rhs) is None]
+    ofs = [dd["d"] for _, dd in rl.local_decl(f, lambda dd: dd.get("init") is not None and f.nodes[f.strip(dd["init"])]["k"] == "BinaryOperator"
+                                               and f.nodes[f.strip(dd["init"])]["op"] in ("%", "&") and f.mentions_decl(dd["init"], f.param_id(0)))]
+    if len(stores) != 1 or len(ofs) != 1 or not W:
+        ctx.broke("%s: the field store / the in-field offset of mi_commit_mask_create not found" % R)
+        return
+    a, lhs, rhs = stores[0]
+    bad = None
+    n_pts = 0
+    M = (1 << W) - 1
+    for o in range(W):
+        for b in list(range(1, W + 2)) + [prog.const("MI_COMMIT_MASK_BITS")]:
+            it = Interp(prog)
+            it.lazy_locals = True
+            env = {f.param_id(1): AV(b, b, 64, False), ofs[0]: AV(o, o, 64, False)}
+            n = min(b, W - o)
+            want = (((1 << n) - 1) << o) & M
+            n_pts += 1
+            try:
+                r = it.eval(f, rhs, env, 0)
+                got = r.const() if isinstance(r, AV) else None
+                if got is None or (got & M) != want:
+                    bad = bad or "ofs=%d, count=%d: stored %r, expected %#x" % (o, b, r, want)
+            except AssertionMayFail as e:
+                bad = bad or "ofs=%d, count=%d: %s" % (o, b, e)
+            except (Split, Unsupported) as e:
+                ctx.broke("%s: cannot evaluate the stored field value of mi_commit_mask_create (%s)" % (R, e))
+                return
+    ctx.check(R, bad is None, f.where(a), "∀ ofs ∈ [0,%d), count ≥ 1: the stored field is bits ofs..ofs+min(count,%d-ofs)-1 exactly (%d points evaluated)%s"
+              % (W, W, n_pts, "" if bad is None else " — fails at " + bad), key=R + ":mask")
